@@ -2,7 +2,7 @@
 import ast
 import re
 
-from sa.astutil import (norm, guards_of, walk_no_nested, always_exits, parent, enclosing, stmt_of,
+from sa.astutil import (inline_locals, norm, guards_of, walk_no_nested, always_exits, parent, enclosing, stmt_of,
                         preceding_stmts, body_walk)
 from sa.bitsdom import self_name
 from sa.errors import AnalysisError
@@ -177,6 +177,40 @@ def tick_sequences(repo):
     return out
 
 
+def _atoms(test, at):
+    """normalised conjuncts of a condition with helper locals inlined: `len(E) == 0` / `not len(E)` / `not E` are one form"""
+    t = inline_locals(test, at)
+    parts = t.values if isinstance(t, ast.BoolOp) and isinstance(t.op, ast.And) else [t]
+    out = set()
+    for p in parts:
+        x = norm(p)
+        mm = re.fullmatch(r'len\((.*)\) == 0', x) or re.fullmatch(r'not len\((.*)\)', x) or re.fullmatch(r'0 == len\((.*)\)', x)
+        out.add('not ' + mm.group(1) if mm else x)
+    return out
+
+
+def _extra_pre_edge_conditions(repo, hm, hc, hf, cond_tuples):
+    """atoms guarding the pre-edge combinational pass of create_sim_tick that do not occur in the 'pure RTL' test of the
+    create_sim_eval_comb that the same class resolves to"""
+    hit = repo.lookup_method(hm, hc, 'create_sim_eval_comb')
+    if hit is None:
+        return []
+    em, ec, ef = hit
+    ifs = [n for n in ef.body if isinstance(n, ast.If)]
+    if not ifs:
+        return []
+    allowed = _atoms(ifs[0].test, ifs[0])
+    extra = []
+    for conds in cond_tuples:
+        for c in conds:
+            if c.startswith('not ('):
+                continue          # negated condition of an overwritten alternative (SeqDom bookkeeping)
+            node = [n for n in ast.walk(hf) if isinstance(n, ast.If) and norm(n.test) == c]
+            atoms = _atoms(node[0].test, node[0]) if node else {c}
+            extra += sorted(a for a in atoms if a not in allowed)
+    return extra
+
+
 def rule_tick_order(repo):
     r = RuleResult('R-tick-order', "in every tick builder all ff blocks precede the flip, nothing combinational runs between "
                                    "the first ff block and the flip, tracing samples before the flip, a full comb pass follows the flip")
@@ -252,6 +286,11 @@ def rule_tick_order(repo):
         elif not any(k == 'comb' and not any(re.search(r'\b%s\.' % re.escape(hf.args.args[0].arg), x) for x in c) for k, c in before):
             r.bad(hm, fn, cons, "the combinational pass before the edge depends on an option of the pass (tracing on/off): "
                   "with it the ff blocks sample values computed from the previous inputs", hf.lineno)
+        elif _extra_pre_edge_conditions(repo, hm, hc, hf, [c for k, c in before if k == 'comb']):
+            extra = _extra_pre_edge_conditions(repo, hm, hc, hf, [c for k, c in before if k == 'comb'])
+            r.bad(hm, fn, cons, f"the combinational pass before the edge is skipped under an extra condition `{extra[0]}` that is not part of the "
+                  f"'pure RTL design' test which makes sim_eval_combinational available: for designs where it fails (e.g. inputs inside a "
+                  f"top-level interface) the ff blocks sample values computed from the previous cycle's inputs", hf.lineno)
         else:
             # line trace (if any) must print settled pre-edge values: after the leading comb pass, before ff
             lt = [i for i, k in enumerate(kinds) if k == 'linetrace']
@@ -286,12 +325,16 @@ def rule_tick_order(repo):
         elif isinstance(s, ast.AugAssign) and norm(s.target) == 'top.reset':
             seq.append('reset=' + norm(s.value))
         elif isinstance(s, ast.If):
-            if any(isinstance(n, ast.Call) and isinstance(n.func, ast.Name) and n.func.id in defs for n in ast.walk(s)):
-                raise AnalysisError("create_sim_reset: conditional tick")
+            cond_calls = [n for n in ast.walk(s) if isinstance(n, ast.Call) and isinstance(n.func, ast.Name) and n.func.id in defs]
+            if cond_calls:
+                r.bad(m, 'PrepareSimPass.create_sim_reset.sim_reset', f"`{norm(cond_calls[0])}` under `{norm(s.test)}`",
+                      f"a {defs[cond_calls[0].func.id]} pass of the reset sequence runs only under `{norm(s.test)}` (e.g. only when a line trace is "
+                      f"printed): otherwise consecutive reset edges sample combinational values computed before the previous edge", s.lineno)
+                seq.append('conditional')
     cons = ' ; '.join(seq)
     ticks = [x for x in seq if x in ('edge', 'comb')]
     resets = [i for i, x in enumerate(seq) if x.startswith('reset=')]
-    ok = len(resets) == 2 and seq and seq[-1] == 'comb' and ticks.count('edge') >= 2
+    ok = len(resets) == 2 and seq and seq[-1] == 'comb' and ticks.count('edge') >= 2 and 'conditional' not in seq
     if ok:
         # every edge is preceded (since the previous edge / reset write) by a comb pass, and followed by one
         last = None
@@ -776,6 +819,20 @@ def rule_replace_marks_registers(repo):
     return res
 
 
+def rule_operator_table(repo):
+    """only <<= may write a signal in an update_ff block: a blocking @= there would change the wire during the edge and make other
+    update_ff blocks see same-edge values.  Shared with C09 (R-C09-optable)."""
+    from rules.c09 import rule_optable
+    return rule_optable(repo)
+
+
+def rule_register_index(repo):
+    """which element of a list of registers is marked for double buffering is the element the block really writes: constant indices
+    (negative ones included) resolve like Python indexing.  Shared with C02 (R-C02-const-index)."""
+    from rules.c02 import rule_const_index
+    return rule_const_index(repo)
+
+
 def rule_struct_registers(repo):
     """a struct-typed register commits what was assigned: the generated bitstruct __ilshift__ / _flip stage and commit every leaf
     exactly once and convert a foreign right-hand side the way @= does.  Shared with C06 (R-C06-leaf, R-C06-grid)."""
@@ -794,7 +851,7 @@ def rule_struct_registers_wiring(repo):
 
 
 RULES = [rule_effects, rule_tick_order, rule_dbuf_set, rule_flip_cover, rule_init, rule_ffset, rule_ff_not_comb,
-         rule_next_in_range, rule_writes_detected, rule_meta_cache, rule_struct_registers, rule_struct_registers_grid, rule_struct_registers_wiring, rule_replace_marks_registers]
+         rule_next_in_range, rule_writes_detected, rule_meta_cache, rule_struct_registers, rule_struct_registers_grid, rule_struct_registers_wiring, rule_replace_marks_registers, rule_operator_table, rule_register_index]
 
 
 def _m(name, file, old, new, rule=None, count=1):
@@ -802,6 +859,8 @@ def _m(name, file, old, new, rule=None, count=1):
 
 
 MUTANTS = [
+    _m('tick-pre-edge-comb-needs-top-inports', PREP, "       len( top.get_all_update_once() ) == 0:\n      final_schedule = top._sched.update_schedule[::]", "       len( top.get_all_update_once() ) == 0 and len( top.get_input_value_ports() ) > 2:\n      final_schedule = top._sched.update_schedule[::]", 'R-tick-order'),
+    _m('reset-comb-only-with-linetrace', PREP, "      ff()\n      # cycle 1\n      up()\n      if print_line_trace:\n", "      ff()\n      # cycle 1\n      if print_line_trace:\n        up()\n", 'R-tick-order'),
     _m('ff-funcs-memoised-on-pass', PREP, "  def collect_ff_funcs( self, top ):\n", "  def collect_ff_funcs( self, top ):\n    if getattr( self, '_ff_funcs', None ) is not None:\n      return self._ff_funcs\n", 'R-tick-order'),
     _m('tick-pre-edge-comb-replaced-by-linetrace', PREP, "      final_schedule.append( top.print_line_trace )\n    final_schedule += self.collect_ff_funcs( top )\n    final_schedule += top._sched.update_schedule\n    final_schedule.append( top._sim.check_top_level_inports )\n    top.sim_tick = SimpleTickPass",
        "      final_schedule = [ top.print_line_trace ]\n    final_schedule += self.collect_ff_funcs( top )\n    final_schedule += top._sched.update_schedule\n    final_schedule.append( top._sim.check_top_level_inports )\n    top.sim_tick = SimpleTickPass", 'R-tick-order'),
